@@ -216,9 +216,6 @@ def rule_routing(ctx, rule_id, only=None):
                    e.data.get('recv') is not None and 'fragment' in fmt_term(e.data['recv'].term)]
             disp = [e for e in p.events if e.kind == 'call' and e.data.get('name') in ('handle_stream',
                                                                                      '_handle_frame_by_type')]
-            if len(disp) > 1:
-                ok, detail = False, 'the frame is dispatched twice'
-                continue
             if fragmentable:
                 if len(app) != 1 or strip_epoch(app[0].data['args'][0].term) != fparam:
                     ok, detail = False, 'a fragmentable frame bypasses the reassembly cache'
@@ -237,41 +234,83 @@ def rule_routing(ctx, rule_id, only=None):
                     ok, detail = False, 'the frame is dropped without being dispatched'
                 kinds.add('held')
                 continue
-            d = disp[0]
-            if strip_epoch(d.data['args'][0].term) != want:
+            if any(strip_epoch(d.data['args'][0].term) != want for d in disp):
+                d = [d for d in disp if strip_epoch(d.data['args'][0].term) != want][0]
                 ok, detail = False, 'what is dispatched (%s) is not %s' % (
                     fmt_term(d.data['args'][0].term), 'the reassembled frame' if fragmentable else 'the frame')
                 continue
+            # effective disposition: a stream-table lookup that reports a miss (returns False) did not consume the frame
+            consumed = []
+            missed = False
+            for d in disp:
+                if d.data.get('name') == '_handle_frame_by_type':
+                    consumed.append(('table', d))
+                else:
+                    verdict = [c.data['value'] for c in p.events if c.kind == 'cond' and c.seq > d.seq and
+                               c.data['key'][0] == 'truth' and
+                               strip_epoch(c.data['key'][1]) == strip_epoch(d.data['value'].term)]
+                    if verdict and verdict[0] is False:
+                        missed = True
+                    else:
+                        consumed.append(('stream', d))
+            if len(consumed) > 1:
+                ok, detail = False, 'the frame is dispatched twice'
+                continue
+            horizon = consumed[0][1].seq if consumed else 10 ** 9
             zero = None
             for e in p.events:
-                if e.kind == 'cond' and e.data['key'][0] == 'eq' and e.seq < d.seq:
+                if e.kind == 'cond' and e.data['key'][0] == 'eq' and e.seq < horizon:
                     a, b = strip_epoch(e.data['key'][1]), strip_epoch(e.data['key'][2])
                     if a == ('attr', want, 'stream_id') and b == ('const', 0) or \
                             b == ('attr', want, 'stream_id') and a == ('const', 0):
                         zero = e.data['value']
             isreq = None
             for e in p.events:
-                if e.kind == 'cond' and e.data['key'][0] == 'isinstance' and e.seq < d.seq and \
+                if e.kind == 'cond' and e.data['key'][0] == 'isinstance' and \
                         strip_epoch(e.data['key'][1]) == want:
                     tested = {c.split(':')[-1] for c in e.data['key'][2]}
                     if tested == request_classes:
-                        isreq = e.data['value']
+                        if consumed and e.seq < consumed[0][1].seq or not consumed:
+                            isreq = e.data['value']
                     elif tested < request_classes and e.data['value'] is False:
                         ok, detail = False, 'the new-request test covers only %s' % sorted(tested)
             if isreq is None and not fragmentable:
                 isreq = cname in request_classes
-            to_table = d.data.get('name') == '_handle_frame_by_type'
-            kinds.add('table' if to_table else 'stream')
-            if fragmentable and not to_table and isreq is None:
-                ok, detail = False, 'a reassembled frame goes to the stream table without being tested for a new request'
-            elif zero is None and not isreq:
-                ok, detail = False, 'dispatch does not depend on the stream id being the connection stream id'
-            elif to_table != bool(zero or isreq):
-                ok, detail = False, ('a connection-level frame or new request is looked up in the stream table'
-                                     if not to_table else 'a stream-level frame goes to the connection dispatch table')
-            if to_table and (len(d.data['args']) < 2 or
-                             strip_epoch(d.data['args'][1].term) != ('param', f.qualname, f.params()[2])):
-                ok, detail = False, 'the table passed on is not the one received'
+            where = consumed[0][0] if consumed else 'dropped'
+            kinds.add(where)
+            first_stream = [d for d in disp if d.data.get('name') == 'handle_stream']
+            if where == 'table':
+                d = consumed[0][1]
+                if len(d.data['args']) < 2 or \
+                        strip_epoch(d.data['args'][1].term) != ('param', f.qualname, f.params()[2]):
+                    ok, detail = False, 'the table passed on is not the one received'
+            if isreq is True or (cname in request_classes and not fragmentable):
+                # a new request must reach its handle_* method (which rejects an id that is in use); offering it to
+                # the stream table first delivers it to the live stream under that id
+                if where != 'table':
+                    ok, detail = False, 'a new request is looked up in the stream table instead of the dispatch table'
+                elif first_stream and first_stream[0].seq < consumed[0][1].seq:
+                    ok, detail = False, ('a new request is offered to the stream table before the dispatch table: a '
+                                         'request reusing a live stream id reaches the live stream instead of being '
+                                         'rejected')
+                continue
+            if fragmentable and isreq is None and where != 'dropped' and not (where == 'table' and zero is True):
+                ok, detail = False, ('a reassembled frame is dispatched (%s) without being tested for a new request' %
+                                     where)
+                continue
+            if zero is True:
+                if where != 'table':
+                    ok, detail = False, 'a frame on stream 0 does not reach the connection dispatch table'
+            elif zero is False:
+                if where == 'table':
+                    ok, detail = False, 'a stream-level frame goes to the connection dispatch table'
+                elif where == 'dropped' and not missed:
+                    ok, detail = False, 'a stream-level frame is dropped without a stream-table lookup'
+            else:
+                if where == 'table':
+                    ok, detail = False, 'dispatch to the connection table does not depend on the stream id being 0'
+                elif where == 'dropped':
+                    ok, detail = False, 'a frame is dropped before its stream id was looked at'
         want_kinds = {'table'} if cname in request_classes and not fragmentable else {'table', 'stream'}
         if fragmentable:
             want_kinds = want_kinds | {'held'}
